@@ -261,6 +261,25 @@ def exec (s : St) (ws : List String) : Option (St × String) :=
       let g2 := registerChans (registerChans r.1.g .dataIn (ins.map Prod.snd)) .dataOut (outs.map Prod.snd)
       some ({ s with w := { r.1 with g := g2 }, names }, showRes r.2)
     | _, _ => none
+  | ["relabel", old, arg] =>
+    -- re-labelling a held child through the workflow: `s:<label>`, `attr:<name>`, `nonstr`
+    let la : Option LabelArg := match arg.splitOn ":" with
+      | ["s", l] => if l = "" then none else some (.str l)
+      | ["attr", l] => if l = "" then none else some (.attr l)
+      | ["nonstr"] => some .nonStr
+      | _ => none
+    la.bind fun la =>
+      let r := step s.w (.relabel old la)
+      let names := match la, r.2 with
+        | .str l, .ok => s.names.map fun e =>
+            if e.2.startsWith (old ++ ".") && (r.1.children.any fun c => c.label == l && c.ids.contains e.1)
+            then (e.1, l ++ (e.2.drop old.length).toString) else e
+        | _, _ => s.names
+      some ({ s with w := r.1, names }, showRes r.2)
+  | ["pull", label, status] =>
+    -- `child.pull()` / `child()`: whether the upstream run raised is what the harness saw (C01/C06)
+    if status ≠ "ok" && !status.startsWith "exc:" then none else
+    some ({ s with w := (step s.w (.pull label (status ≠ "ok"))).1 }, status)
   | "ext" :: label :: "in" :: rest =>
     -- a node that is nobody's child: its channels exist (for connections and values) only
     let (ins, outs) := splitAt rest "out"
